@@ -71,6 +71,7 @@ var funcMap = map[string][2]string{
 	"google.golang.org/grpc.NewClient":                        {"vsimenv", "GRPCNewClient"},
 	"google.golang.org/grpc.Dial":                             {"vsimenv", "GRPCNewClient"},
 	"os/signal.Notify": {"vsimenv", "SignalNotify"},
+	"net/http.TimeoutHandler":                                 {"vsimenv", "HTTPTimeoutHandler"},
 	"os.Exit":                                                 {"vsimenv", "OSExit"},
 }
 
